@@ -3,7 +3,7 @@
 // worker, so aggregator batches, push/pull edge switching, the race of a forwarder task with a try_put for the last concurrency slot,
 // limiter puts racing decrements, join ports fed from two threads and an async gateway completed by a foreign thread are interleaved
 // at the level of individual atomic operations.
-// -p kind=ext2|ext2rej|pull|pull2|limiter|limiter_ext|joinq|joinr|joink|bufsplit|async|seq    -p P=2  -p asleep=0
+// -p kind=ext2|ext2rej|pull|pull2|limiter|limiter_ext|limiter_push|joinq|joinr|joink|bufsplit|async|seq    -p P=2  -p asleep=0
 #include <oneapi/tbb/flow_graph.h>
 #include <oneapi/tbb/task_arena.h>
 #include <oneapi/tbb/task_group.h>
@@ -54,6 +54,14 @@ static void scenario() {
             std::vector<int> ids; if (streq(k, "limiter_ext")) ids = gated(1, initext, [&](int) { if (!Q.try_put(2)) vf_fail("queue_node rejected"); });
             vf_window(1); vf_gate_open(); Q.try_put(0); Q.try_put(1); if (!streq(k, "limiter_ext")) Q.try_put(2); g.wait_for_all(); join_all(ids); g.wait_for_all(); quiet = true; vf_window(0);
             acc = {0, 1, 2}; once(f, acc); }
+        else if (streq(k, "limiter_push")) {   // a direct put is in flight inside a slow lightweight successor while the limiter's forward task serves a queued predecessor
+            queue_node<int> Q(g); limiter_node<int> L(g, 1); int started = 0, decs = 0; f.limit = 0;
+            function_node<int, continue_msg, lightweight> S(g, unlimited, [&](int x) noexcept { started++; if (started - decs > 1) vf_fail("limiter_node(threshold 1): message %d forwarded while %d forwarded messages are not yet decremented", x, started - decs - 1); enter(f, x); leave(f); return continue_msg(); });
+            make_edge(Q, L); if (!Q.try_put(100)) vf_fail("queue_node rejected"); g.wait_for_all();          // no successor yet: the limiter rejects, the queue becomes its pull-mode predecessor
+            vf_window(1); make_edge(L, S);                                                                    // spawns the limiter's forward task
+            bool ok = L.try_put(1); g.wait_for_all();
+            decs++; L.decrementer().try_put(continue_msg()); g.wait_for_all(); if (ok) { decs++; L.decrementer().try_put(continue_msg()); g.wait_for_all(); } quiet = true; vf_window(0);
+            acc = {100}; if (ok) acc.insert(1); once(f, acc); }
         else if (streq(k, "joinq") || streq(k, "joink") || streq(k, "joinr")) {   // two threads feed the two ports
             std::vector<std::pair<int, int>> out; auto body = [&](const std::tuple<int, int>& t) { enter(s, (int)out.size()); out.push_back({std::get<0>(t), std::get<1>(t)}); leave(s); return continue_msg(); };
             function_node<std::tuple<int, int>, continue_msg, rejecting> S(g, serial, body);
